@@ -50,6 +50,7 @@ type TermTable struct {
 	next   int
 	ufDecl map[string]string // UF name -> declaration text
 	vars   []*Term
+	shadows *shadowTables
 }
 
 func NewTermTable() *TermTable {
@@ -837,6 +838,9 @@ func (tt *TermTable) IntToFloat(cfg FloatCfg, a *Term, signed bool) *Term {
 		return tt.Float(float64(a.u), cfg.Dom)
 	}
 	if cfg.Dom == SReal {
+		if s := tt.shadowOf(a); s.ok && (signed || s.lo >= 0) {
+			return tt.mk("to_real", SReal, 0, s.iv)
+		}
 		n := tt.mk("bv2nat", SInt, 0, a)
 		if signed {
 			// n - 2^w if msb set
@@ -864,6 +868,10 @@ func (tt *TermTable) FloatToInt(cfg FloatCfg, a *Term, w int, signed bool) (*Ter
 	if cfg.Dom == SReal {
 		// trunc(a) built directly as an Int term (to_int(to_real(k)) = k): keeps the query free
 		// of nested to_int/to_real, which z3 does not simplify and then times out on.
+		if k, ok := tt.intOfReal(a); ok {
+			// the value is structurally an integer (to_real of an Int term, negation, ite): no truncation
+			return tt.mk(fmt.Sprintf("(_ int2bv %d)", w), SBV, w, k), nil
+		}
 		fl := tt.mk("to_int", SInt, 0, a)
 		ce := tt.mk("-", SInt, 0, tt.mk("to_int", SInt, 0, tt.mk("-", SReal, 0, a)))
 		ti := tt.Ite(tt.mk("<", SBool, 0, a, tt.Float(0, SReal)), ce, fl)
@@ -873,6 +881,28 @@ func (tt *TermTable) FloatToInt(cfg FloatCfg, a *Term, w int, signed bool) (*Ter
 		return tt.mk(fmt.Sprintf("(_ fp.to_sbv %d)", w), SBV, w, tt.mk("RTZ", SBool, 0), a), nil
 	}
 	return tt.mk(fmt.Sprintf("(_ fp.to_ubv %d)", w), SBV, w, tt.mk("RTZ", SBool, 0), a), nil
+}
+
+// intOfReal: the Int term k with a = to_real(k), if a is built from to_real, unary minus and ite only.
+func (tt *TermTable) intOfReal(a *Term) (*Term, bool) {
+	if a.sort != SReal {
+		return nil, false
+	}
+	switch {
+	case a.op == "to_real" && len(a.args) == 1 && a.args[0].sort == SInt:
+		return a.args[0], true
+	case a.op == "-" && len(a.args) == 1:
+		if k, ok := tt.intOfReal(a.args[0]); ok {
+			return tt.intSub(tt.IntC(0), k), true
+		}
+	case a.op == "ite":
+		k1, ok1 := tt.intOfReal(a.args[1])
+		k2, ok2 := tt.intOfReal(a.args[2])
+		if ok1 && ok2 {
+			return tt.Ite(a.args[0], k1, k2), true
+		}
+	}
+	return nil, false
 }
 
 // ---- SMT-LIB printing ----
